@@ -56,10 +56,17 @@ def jobs_for(ctx, n):
         reqs.append({"iface": "paths_seq", "split": 0, "shuffle": 0, "repeat": False, "filters": [rng.choice([0, 1, 2, 3, 9, None]) for _ in range(6)]})
         reqs.append({"iface": "paths_seq", "split": 0, "shuffle": 0, "repeat": False, "seq": [
             {"filter": rng.choice([None, None, None, 1, 2, {"nex_ge": 2}, {"nex_eq": 1}]), "shards": rng.choice([None, 1, 2, 3, 50]), "limit": rng.choice([None, None, 1, 2])} for _ in range(6)]})
-        for via in ("sync", "concurrent"):
+        for via in ("sync", "concurrent", "tf"):
             reqs.append({"iface": "iface_seq", "via": via, "split": 0, "shuffle": 0, "repeat": False, "seq": [
                 {"filter": rng.choice([1, 2, 1, 2, None, {"nex_ge": 2}]), "shards": rng.choice([None, None, 2])} for _ in range(5)]})
         jobs.append({"dataset": spec, "requests": reqs})
+    # a TFRecord dataset (as_tfdataset builds its own pipeline for it): a filtered pass followed by an unfiltered one with otherwise equal options
+    M = lambda v: ["M", 1, v]  # noqa: E731
+    Wm = ["W", 0, 1, True]
+    spec = {"format": "tfrec", "compression": "", "eps": 2, "sessions": [{"kind": "filler", "sub": [], "reopen": False,
+            "ops": [M(1), Wm, Wm, Wm, M(2), Wm, Wm, M(1), Wm, Wm, Wm]}]}
+    seq = [{"filter": 1}, {"filter": None}, {"filter": 2, "shards": 3}, {"filter": None, "shards": 3}, {"filter": {"nex_eq": 1}}, {"filter": None}]
+    jobs.append({"dataset": spec, "requests": [{"iface": "iface_seq", "via": via, "split": 0, "shuffle": 0, "repeat": False, "seq": seq} for via in ("tf", "sync")]})
     return jobs
 
 
